@@ -17,9 +17,51 @@ enum Case {
     Iterate { cid: Cid, k: usize, n: usize, s: usize },
     /// usize-backed: iterator protocol of kmers::<K>()
     Protocol { cid: Cid, k: usize, n: usize },
+    /// two k-mer types used one after the other on the same thread: text -> k-mer -> text for a, b, a, b
+    /// (anything cached between calls and keyed by too little shows here)
+    Interleave { a: (Cid, Sid, usize), b: (Cid, Sid, usize) },
+}
+
+fn kinds() -> Vec<(Cid, Sid, usize)> {
+    let mut v = Vec::new();
+    for cid in Cid::ALL {
+        v.push((cid, Sid::Usize, 2));
+        v.push((cid, Sid::Usize, 3));
+        v.push((cid, Sid::U128, 3));
+        v.push((cid, Sid::U64, 64 / cid.bits()));
+    }
+    v
+}
+
+fn kind_roundtrip<A: SxK>(sid: Sid, k: usize, salt: usize, out: &mut Out) {
+    let cn = A::CID.name();
+    let sn = sid.name();
+    let al = alphabet::<A>();
+    let Some(api) = kmer_api::<A>(sid, k) else {
+        out.violation("MACHINERY/k-does-not-fit", format!("{:?} {sid:?} {k}", A::CID));
+        return;
+    };
+    let content: Vec<A> = (0..k).map(|i| al[(i * 5 + salt) % al.len()]).collect();
+    let want = pack_u128(&codes(&content), A::BITS as usize);
+    let text = show(&content);
+    out.stage = "interleaved Kmer::from_str";
+    let f = out.catch(|| api.from_str(&text));
+    out.check(matches!(&f, Ok(Ok(x)) if *x == want), || {
+        (format!("{cn}/kmer<{sn}>/from_str-wrong-kmer-after-another-type"), format!("Kmer<_,{k},{sn}>::from_str({text:?}) = {:x?}, want {want:#x}", f))
+    });
+    out.stage = "interleaved Kmer Display";
+    let d = out.catch(|| api.display(want));
+    out.check(d.as_deref() == Ok(text.as_str()), || {
+        (format!("{cn}/kmer<{sn}>/display-wrong-after-another-type"), format!("Kmer<_,{k},{sn}> {want:#x} displays as {:?}, want {text:?}", d))
+    });
 }
 
 fn gen(t: Tier, _seed: u64, emit: &mut dyn FnMut(Case)) {
+    for a in kinds() {
+        for b in kinds() {
+            emit(Case::Interleave { a, b });
+        }
+    }
     for cid in Cid::ALL {
         let bits = cid.bits();
         let spw = 64 / bits;
@@ -52,6 +94,13 @@ fn gen(t: Tier, _seed: u64, emit: &mut dyn FnMut(Case)) {
 
 fn run(c: &Case, out: &mut Out) {
     match c {
+        Case::Interleave { a, b } => {
+            for salt in 0..3 {
+                bsvk::dispatch_k!(a.0, kind_roundtrip(a.1, a.2, salt, out));
+                bsvk::dispatch_k!(b.0, kind_roundtrip(b.1, b.2, salt + 1, out));
+            }
+            out.observe(&(a, b));
+        }
         Case::Construct { cid, .. } | Case::Iterate { cid, .. } | Case::Protocol { cid, .. } => bsvk::dispatch_k!(*cid, run_g(c, out)),
     }
 }
@@ -74,6 +123,7 @@ fn run_g<A: SxK>(c: &Case, out: &mut Out) {
     let al = alphabet::<A>();
     let m = al.len();
     match c {
+        Case::Interleave { .. } => unreachable!(),
         Case::Construct { sid, k, .. } => {
             let (sid, k) = (*sid, *k);
             let sn = sid.name();
